@@ -93,6 +93,14 @@ def _metric(ctx, cfg):
             vc.check("MetricEvaluator/last holds the same values (a copy)", ev.last == v and ev.last is not v)
         else:
             vc.check("MetricEvaluator/off-schedule epoch: nothing evaluated, nothing recorded", calls == [] and ev.past_values == [prior] and ev.last == {})
+        # frame: records and last values change at scheduled epoch ends only - no other event of the protocol (a new run
+        # starting, batches, epoch starts, the run ending) touches them
+        snap_pv, snap_last = list(ev.past_values), dict(ev.last)
+        for evname, args in (("on_train_start", (st,)), ("on_epoch_start", (st, epoch)), ("on_batch_start", (st, epoch, 0)), ("on_batch_end", (st, epoch, 0)),
+                             ("on_train_end", (st,)), ("on_train_start", (st,))):
+            getattr(ev, evname)(*args)
+        vc.check("MetricEvaluator/frame: no event other than a scheduled epoch end changes the records or the last values",
+                 len(ev.past_values) == len(snap_pv) and all(a is b for a, b in zip(ev.past_values, snap_pv)) and ev.last == snap_last)
         vc.check("MetricEvaluator/never writes the training state", st.writes == [] and st.saved == [])
     vc.explore(run, "MetricEvaluator")
 
@@ -173,6 +181,14 @@ def _observable(ctx, cfg):
             vc.check("ObservableEvaluator/last holds the same statistics", ev.last == result)
         else:
             vc.check("ObservableEvaluator/off-schedule epoch: nothing sampled, nothing recorded", calls == [] and ev.past_values == [] and ev.last == {})
+        # frame: records and last values change at scheduled epoch ends only - no other event of the protocol (a new run
+        # starting, batches, epoch starts, the run ending) touches them
+        snap_pv, snap_last = list(ev.past_values), dict(ev.last)
+        for evname, args in (("on_train_start", (st,)), ("on_epoch_start", (st, epoch)), ("on_batch_start", (st, epoch, 0)), ("on_batch_end", (st, epoch, 0)),
+                             ("on_train_end", (st,)), ("on_train_start", (st,))):
+            getattr(ev, evname)(*args)
+        vc.check("ObservableEvaluator/frame: no event other than a scheduled epoch end changes the records or the last values",
+                 len(ev.past_values) == len(snap_pv) and all(a is b for a, b in zip(ev.past_values, snap_pv)) and ev.last == snap_last)
         vc.check("ObservableEvaluator/never writes the training state", st.writes == [] and st.saved == [])
         vc.check("ObservableEvaluator/names are the observables' names in order", ev.names == ["SigmaZ", "SigmaX"])
     vc.explore(run, "ObservableEvaluator")
@@ -281,6 +297,35 @@ def _saver(ctx, cfg):
                             vc.check("ModelSaver/off-schedule epoch: no metadata evaluated" + tag, mcalls == [])
                         vc.check("ModelSaver/never writes attributes of the training state" + tag, st.writes == [])
                     vc.explore(run, "ModelSaver %s %s %s" % (meta_kind, only, initial))
+
+        def run_exc():
+            # history: a save through the callback raised (metadata with a reserved key refused by save(), a failing
+            # metadata function, a full disk) and the caller caught the error: the same ModelSaver keeps saving afterwards,
+            # for this and for any other state
+            del saved_meta[:]
+            period, epoch = vc.fresh_int("period", 1), vc.fresh_int("epoch")
+            sv = SB(period, tmp, "model_{}.pt", save_initial=True, metadata={"note": "x"}, metadata_only=False)
+
+            class Refusing(State):
+                def save(self, path, metadata=None):
+                    raise ValueError("reserved key in metadata")
+            bad = Refusing()
+            raised = 0
+            for call in (lambda: sv.on_train_start(bad), lambda: sv.on_epoch_end(bad, period)):
+                try:
+                    call()
+                except ValueError:
+                    raised += 1
+            vc.check("ModelSaver/exception: an error raised by save() reaches the caller", raised == 2)
+            st = State()
+            sv.on_train_start(st)
+            vc.check("ModelSaver/exception: after failed saves the initial checkpoint of the next run is written", len(st.saved) == 1 and st.saved[0][0] == os.path.join(sv.path, "model_initial.pt"))
+            del st.saved[:]
+            sv.on_epoch_end(st, epoch)
+            n = len(st.saved)
+            g = _gate(epoch, period)
+            vc.check("ModelSaver/exception: after failed saves it still saves iff epoch % period == 0", (g == (n == 1)) if isinstance(g, A.Sym) else (bool(g) == (n == 1)))
+        vc.explore(run_exc, "ModelSaver/exception")
         vc.flush()
         ctx.holds("ModelSaver/creates the folder and resolves the path", os.path.isdir(tmp))
         ctx.holds("exploration/paths > 0", vc.paths > 0)
